@@ -45,7 +45,10 @@ CHECKS = {
         "alter the screen or the random stream) are compared bytewise. One run in eight puts the von Karman instance's random stream behind a seam "
         "and feeds it zeros and unit impulses: the real add_row then emits the exact impulse responses of the recursion, which decide stability "
         "(decay below 1e-13 within 12000 steps, also from a random start) and the stationary covariance at lags 0..n_columns against an independent "
-        "float64 von Karman formula - exactly, without sampling noise. Sampling over configurations and histories, not proof.",
+        "float64 von Karman formula - exactly, without sampling noise; decoy instances that differ in one parameter are created first. Histories also "
+        "contain pickle/deepcopy checkpoints, numba thread-count changes and simulated forks; one run in 25 uses an outer scale of 1e3..1e7 pixels for "
+        "1200 rows (finite/shape/shift), with an aggregate oracle over the region where the constructor normally refuses. Two open known findings "
+        "(divergence for outer scales >= 1e4 pixels). Sampling over configurations and histories, not proof.",
    note="Only public names are used (constructor, add_row, scrn, repr/str). Stationary stage covers the von Karman variant in nx<=24, n_columns<=4, "
         "L0/pixel<=60 with tolerance 1e-5 of the variance (aotools evaluates the covariance at float32-rounded separations); if a refactor's draw "
         "pattern cannot be scripted the stage records 'inconclusive', never an alarm.",
@@ -58,7 +61,10 @@ CHECKS = {
         "RNG), extra screens with the same seeds, gc, print options. Around every screen op the global RNG states must be untouched; at the end twin "
         "traces (initial screen and every added row) must be bytewise equal, different seeds must differ, unseeded calls must differ. OS entropy and "
         "the clock are simulated so unseeded screens replay bit for bit; a sample of runs is re-executed in a fresh interpreter under another "
-        "PYTHONHASHSEED, and a run whose digest depends on which unrelated runs preceded it in the process is reported as hidden state.",
+        "PYTHONHASHSEED, and a run whose digest depends on which unrelated runs preceded it in the process is reported as hidden state. Actors may "
+        "overwrite returned screens in place, restart through make_initial_screen(), checkpoint by deepcopy/pickle and step the copy, share one "
+        "SeedSequence object, use numpy-typed and neighbouring 64-bit seeds; numba's thread count changes as noise; a sample of plans is re-run with the "
+        "actors in another order in pristine processes.",
    note="Twins are compared with each other on the same tree (no goldens). Pre-emption at library-call granularity (aotools has no threads). "
         "Seeds compared as 'different' are distinct ints or an int vs a 3-element sequence.",
    ref="DESIGN.md section 6"),
@@ -75,8 +81,9 @@ CHECKS["C18"] = dict(
         "scheduler nondeterminism. After every call: exactly L layers, strengths >= 0, total Cn2 conserved to 1e-12, heights are input heights in "
         "increasing order inside their groups, cost of the returned grouping not above the equal split; equivalent_layers: total, 5/3 height and wind "
         "moments; GCTM: L layers, non-negative, objective not above its starting point. The equivalent-layers and GCTM clauses have no RNG/history "
-        "dimension and ride along as workload oracles on the same profiles (N 2-40, regular/irregular/clustered heights, 6 decades of strength, "
-        "L 1..N-1); the evidence counts them separately. Sampling, not proof.",
+        "dimension and ride along as workload oracles on the same profiles (N 2-40 (100 thorough), regular/irregular/clustered/log/surface-gap heights "
+        "incl. duplicates, 6 decades of strength, integer/strided/read-only arrays, shuffled layer order, other units, L 1..N-1); arrays are refilled in "
+        "place between calls and returned arrays must stay unchanged afterwards; GCTM is also compared with an independent optimiser. Sampling, not proof.",
    note="The grouping is reconstructed from the returned strengths (contiguous groups); equal split = numpy.linspace(0,N,L+1,dtype=int) or numpy.array_split, "
         "passing either suffices. GCTM only on profiles whose L equal-thickness slabs are all non-empty.",
    ref="DESIGN.md section 7")
@@ -88,8 +95,10 @@ CHECKS["C20"] = dict(
         "re-allocation (id() reuse), ambient RNG reseeds and, per call, numpy.empty poisoned with a different value per allocation when called from "
         "aotools frames. Invariants: at every executed line of an aotools frame and after the call every argument array (and the whole heap) is "
         "bit-identical to its snapshot; the same call later in the history returns a bytewise equal result; the call on fresh copies of the arguments "
-        "returns an equal result; stack calls equal per-item calls. A run whose digest depends on which unrelated runs preceded it in the process is "
-        "reported as hidden state. Sampling, not proof.",
+        "returns an equal result; stack calls (3-D and 4-D) equal per-item calls; arrays returned earlier never change later; numpy error state, print "
+        "options, warnings filters, cwd, environment and both global RNGs are identical before and after every call; callers overwrite returned arrays "
+        "and refill heap arrays in place; complex, big-endian and all-zero inputs; a sample of programs is re-run in reverse order in pristine "
+        "processes. A run whose digest depends on which unrelated runs preceded it in the process is reported as hidden state. Sampling, not proof.",
    note="An exception is a result (same type again = equal). A write-protected argument that makes a call raise is judged on a writable copy. "
         "Results on fresh copies and batch-vs-item are compared with rtol 1e-9 (1e-4 when single precision is involved). numba kernels are opaque to "
         "the line monitor. One open known finding (centre_of_gravity stack vs frame with threshold != 0).",
